@@ -15,15 +15,18 @@
 (*               FALSE = it only SELECTs the text of the DROP statements and never executes them              *)
 (*   SaveAll     TRUE  = every field of the C struct is written and read                                      *)
 (*               FALSE = PCAMODEL.dmodx is neither written nor read (it comes back as a fresh 0x0 matrix)     *)
-(* Abstract models are (kind, size class, tag): every field has its own dims, different in the two size        *)
-(* classes (some optional fields are empty in the small class), and every content number of the model         *)
+(* Abstract models are (kind, size class, tag): every field has its own dims, different in the size classes    *)
+(* small/large (some optional fields are empty in the small class); the third class "unscaled" has empty      *)
+(* preprocessing vectors, so that "empty optional fields stay empty" is exercised after non-empty             *)
+(* predecessors in the same table (also across PCA/CPCA, which share table names); every content number of the model *)
 (* written at step t is the number Cell(t); dimension entries are numbers below CellBase, so the model can    *)
 (* tell when a reader takes a content number for a dimension or the other way round.                          *)
 EXTENDS Naturals, Sequences, FiniteSets, TLC
 CONSTANTS Paths, MaxHist, DropTables, SaveAll
 
 Kinds == {"PCA", "CPCA", "PLS"}
-Sizes == {1, 2}
+Sizes == {1, 2, 3}     \* 1 = small, 2 = large (both fitted with centring/scaling), 3 = "unscaled": a small model fitted with
+                       \* scaling -1, whose preprocessing vectors are EMPTY (zero rows in their tables; for CPCA a list of empty vectors)
 
 F(n, t) == [name |-> n, ty |-> t]
 \* every field of the C structs, saved ones in the order Write<kind> writes them (pca.h, cpca.h, pls.h; io.c:251-586)
@@ -64,12 +67,20 @@ SumCells(sh) == IF sh = <<>> THEN 0 ELSE (IF Len(sh[1]) = 1 THEN sh[1][1] ELSE s
 NCells(sh) == SumCells(sh)
 
 \* abstract dims: field number i of its kind, size class s; small vectors/matrices/lists with i % 3 = 0 are empty
-AbsShape(k, f, s) ==
+\* the optional preprocessing fields: empty when the model was fitted with scaling -1
+Prep(k) == CASE k = "PCA" -> {"colaverage", "colscaling"}
+             [] k = "CPCA" -> {"colaverage", "colscaling"}
+             [] k = "PLS" -> {"xcolaverage", "xcolscaling", "ycolaverage", "ycolscaling"}
+AbsShape12(k, f, s) ==
   LET i == FieldIdx(k, f) ty == TypeOf(k, f) IN
   CASE ty = "vec" -> << <<(i % 3) + s - 1>> >>
     [] ty = "mat" -> IF f = "dmodx" THEN << <<s + 1, s>> >> ELSE << <<(i % 3) + s - 1, ((i \div 3) % 2) + s>> >>
     [] ty = "ten" -> [j \in 1..((i % 2) + s - 1) |-> <<j + s - 1, s>>]
     [] ty = "lst" -> [j \in 1..((i % 2) + s) |-> <<j + s - 2>>]
+AbsShape(k, f, s) ==
+  IF s < 3 THEN AbsShape12(k, f, s)
+  ELSE IF f \notin Prep(k) THEN AbsShape12(k, f, 1)
+  ELSE IF TypeOf(k, f) = "vec" THEN << <<0>> >> ELSE [j \in 1..Len(AbsShape12(k, f, 1)) |-> <<0>>]
 AbsModelT == [k \in Kinds |-> [s \in Sizes |-> [f \in ModelFields(k) |-> AbsShape(k, f, s)]]]
 AbsModel(k, s) == AbsModelT[k][s]
 
@@ -164,6 +175,13 @@ Spec == Init /\ [][Next]_vars
 ReadsLast == lastread.valid =>
                LET w == lastw[lastread.p][lastread.k] IN lastread.res = Expect(lastread.k, w.sh, w.tag)
 \* sanity of the abstract models: the two size classes differ in every field, so a stale read cannot go unnoticed
-SizesDiffer == \A k \in Kinds : \A f \in ModelFields(k) : AbsShape(k, f, 1) # AbsShape(k, f, 2)
+SizesDiffer == /\ \A k \in Kinds : \A f \in ModelFields(k) : AbsShape(k, f, 1) # AbsShape(k, f, 2)
+               /\ \A k \in Kinds : \A f \in Prep(k) : NCells(AbsShape(k, f, 3)) = 0 /\ NCells(AbsShape(k, f, 2)) > 0
+\* the clause "empty optional fields stay empty", stated on its own (implied by ReadsLast): a field that is empty in the model
+\* last written is read back with exactly its (empty) dims and no content number, whatever the table held before
+EmptyStaysEmpty == lastread.valid =>
+                     LET w == lastw[lastread.p][lastread.k] IN
+                     \A f \in ModelFields(lastread.k) : NCells(w.sh[f]) = 0 =>
+                        (lastread.res[f].dims = w.sh[f] /\ lastread.res[f].tags = {} /\ lastread.res[f].ok)
 MCView == <<db, hist, lastw, lastkind, lastread>>
 ====
